@@ -234,6 +234,11 @@ class Driver:
             Logger object or file specification, or None to unset the default logger.
         """
         if default_logger is None:
+            # unsetting also detaches: an observer that is no longer the default one is not
+            # called any more (rows without the header that precedes them are not a log)
+            if getattr(self, "_default_logger", None) is not None:
+                self.file_manager.detach_observer("default_logger")
+
             self._default_logger = None
             return
 
@@ -273,6 +278,9 @@ class Driver:
             Restart observer or file specification, or None to unset the default restart observer.
         """
         if restart_observer is None:
+            if getattr(self, "_default_restart", None) is not None:
+                self.file_manager.detach_observer("default_restart")
+
             self._default_restart = None
             return
 
@@ -344,6 +352,11 @@ class SingleDriver(Driver):
             Trajectory observer or file specification, or None to unset the default trajectory observer.
         """
         if default_trajectory is None:
+            # unsetting also detaches: an observer that is no longer the default one is not
+            # called any more (rows without the header that precedes them are not a log)
+            if getattr(self, "_default_trajectory", None) is not None:
+                self.file_manager.detach_observer("default_trajectory")
+
             self._default_trajectory = None
             return
 
